@@ -1017,7 +1017,7 @@ Section Inv.
   Proof.
     intros It Hct Rt C Hl Hdk Hfh Hp. pose proof C as (B & HL & Hc).
     destruct (seek_start_cb s L E C (b_cext _ _ _ B) Hl) as (s0 & Hss & I0 & P0 & C0 & D0 & F0 & W0 & M0 & N0).
-    unfold seek_ofs. rewrite Hss. cbn [snd].
+    unfold seek_ofs. rewrite Hss. cbn [negb].
     assert (Hf0 : fsize s0 = fsize s) by (unfold fsize; rewrite F0; reflexivity).
     rewrite Hf0. replace (Z.min p (fsize s)) with p by lia. destruct (Z.eqb_spec p (fsize s)); [lia|].
     destruct (N0 ltac:(lia)) as (N1 & N2 & N3).
@@ -1510,6 +1510,15 @@ Section Inv.
     - apply mod_block. lia.
   Qed.
 
+  (* a coherent handle has a buffered block whenever the file has data: adfFileWrite's guard does not fire *)
+  Lemma write_guard_off s L E : Inv s L E -> (cur s =? 0) && (0 <? fsize s) = false.
+  Proof.
+    intros I. destruct (Z.eqb_spec (cur s) 0) as [Hc|Hc]; [|reflexivity]. cbn [andb]. destruct (Z.ltb_spec 0 (fsize s)) as [Hs|Hs]; [|reflexivity].
+    exfalso. destruct I as (B & HL & [(Hz & _)|(Hcu & Hnn & _)]); [lia|].
+    assert (Hin : In (cur s) (L ++ E)) by (apply in_or_app; left; rewrite Hcu; apply in_L_nth; lia).
+    pose proof (b_ge2 _ _ _ B (cur s) Hin). lia.
+  Qed.
+
   Lemma repr_nothing s L ct data : 0 <= pos s <= fsize s -> Repr s L ct -> Repr s L (ovw ct (pos s) (firstn (Z.to_nat 0) data)).
   Proof. intros Hp R. change (firstn (Z.to_nat 0) data) with (@nil Z). rewrite ovw_nil; [exact R|]. destruct R as (Hl & _). lia. Qed.
 
@@ -1705,7 +1714,7 @@ Section Inv.
       /\ (w = len data -> al_ok L' E' al') /\ (w < len data -> exists r, al = r ++ None :: al' \/ (al' = [] /\ True))
       /\ Fr (key :: L' ++ E') s s' /\ Grows L E L' E' al al'.
   Proof.
-    intros I R Hw Hal. unfold fio_write. rewrite Hw. cbn [negb].
+    intros I R Hw Hal. unfold fio_write. rewrite Hw, (write_guard_off s L E I). cbn [negb orb].
     apply (write_loop_ok_fr _ s data al L E ct I R Hw Hal).
     intros Hd. fold (len data). pose proof (Z.mod_pos_bound (pos s) bs Hbs). pose proof (Z.div_mod (len data) bs ltac:(lia)).
     pose proof (Z.mod_pos_bound (len data) bs Hbs). pose proof (Z.div_pos (len data) bs ltac:(lia) Hbs). rewrite Z2Nat.id by lia. nia.
@@ -1716,7 +1725,7 @@ Section Inv.
       /\ Repr s' L' (ovw ct (pos s) (firstn (Z.to_nat w) data)) /\ pos s' = pos s + w /\ 0 <= w <= len data /\ mw s' = true /\ mr s' = mr s
       /\ (w = len data -> al_ok L' E' al') /\ (w < len data -> exists r, al = r ++ None :: al' \/ (al' = [] /\ True)).
   Proof.
-    intros I R Hw Hal. unfold fio_write. rewrite Hw. cbn [negb].
+    intros I R Hw Hal. unfold fio_write. rewrite Hw, (write_guard_off s L E I). cbn [negb orb].
     apply (write_loop_ok _ s data al L E ct I R Hw Hal).
     intros Hd. fold (len data). pose proof (Z.mod_pos_bound (pos s) bs Hbs). pose proof (Z.div_mod (len data) bs ltac:(lia)).
     pose proof (Z.mod_pos_bound (len data) bs Hbs). pose proof (Z.div_pos (len data) bs ltac:(lia) Hbs). rewrite Z2Nat.id by lia. nia.
@@ -1914,10 +1923,12 @@ Section Inv.
   Lemma create_next_refused s : create_next bs ofs s None = (false, s).
   Proof. unfold create_next. destruct (ndb s <? MAXDB); [reflexivity|]. destruct (ndb s mod MAXDB =? 0); reflexivity. Qed.
 
-  Theorem fio_write_refused s data al : mw s = true -> pos s mod bs = 0 -> pos s = fsize s -> data <> [] ->
+  Theorem fio_write_refused s data al : mw s = true -> (cur s <> 0 \/ fsize s = 0) -> pos s mod bs = 0 -> pos s = fsize s -> data <> [] ->
     fio_write bs ofs nobad s data (None :: al) = (s, 0, al) /\ fio_write bs ofs nobad s data [] = (s, 0, []).
   Proof.
-    intros Hw Hm Hp Hd. unfold fio_write. rewrite Hw. cbn [negb].
+    intros Hw Hg Hm Hp Hd. unfold fio_write. rewrite Hw.
+    assert (Hgo : (cur s =? 0) && (0 <? fsize s) = false) by (destruct Hg as [Hg|Hg]; [destruct (Z.eqb_spec (cur s) 0); [contradiction|reflexivity]|rewrite Hg, andb_false_r; reflexivity]).
+    rewrite Hgo. cbn [negb orb].
     assert (Hf : exists f, Z.to_nat (Z.of_nat (length data) / bs + 2) = S f).
     { assert (0 <= Z.of_nat (length data) / bs) by (apply Z.div_pos; lia). exists (Z.to_nat (Z.of_nat (length data) / bs + 1)). lia. }
     destruct Hf as (f & ->). destruct data as [|b0 d0]; [contradiction|]. cbn [write_loop].
